@@ -3,5 +3,11 @@ EXTENDS Node, Json, IOUtils, SequencesExt
 VARIABLE x
 Init == x = 0
 Next == UNCHANGED x
-ASSUME JsonSerialize(IOEnv.ND_OUT, SetToSeq(Requests))
+\* ND_LEVEL (optional): "handler" = the requests that have a protocol form (component nhand), "handler-wide" /
+\* "handler-deep" = its wider alphabets
+Level == IF "ND_LEVEL" \in DOMAIN IOEnv THEN IOEnv.ND_LEVEL ELSE "node"
+ASSUME JsonSerialize(IOEnv.ND_OUT, SetToSeq(CASE Level = "handler" -> HRequests
+                                              [] Level = "handler-wide" -> HRequestsWide
+                                              [] Level = "handler-deep" -> HRequestsDeep
+                                              [] OTHER -> Requests))
 =============================================================================
